@@ -8,7 +8,7 @@ import hashlib
 import json
 import time
 
-from .engine import replay
+from .engine import execute_replay as replay
 
 
 def _fails(prop, universe, cfg, trace, signature):
